@@ -661,6 +661,10 @@ Circuit::Circuit(std::string_view text) {
 size_t Circuit::count_qubits() const {
     return (uint32_t)max_operation_property([](const CircuitInstruction &op) -> uint32_t {
         uint32_t r = 0;
+        if (op.gate_type == GateType::MPAD) {
+            // MPAD targets are literal bits, not qubits.
+            return r;
+        }
         for (auto t : op.targets) {
             if (!(t.data & (TARGET_RECORD_BIT | TARGET_SWEEP_BIT))) {
                 r = std::max(r, t.qubit_value() + uint32_t{1});
